@@ -65,6 +65,12 @@ MUTANTS = [
     ("R03", "hover hook returns enum-free equivalent with early None check reordered", [(H, "    def _hover_provider_hook(\n        object_: Any, _: type\n    ) -> Union[OptionalPrimitive, lsp_types.HoverOptions]:\n        if object_ is None:\n            return None\n        if isinstance(object_, (bool, int, str, float)):\n            return object_", "    def _hover_provider_hook(\n        object_: Any, _: type\n    ) -> Union[OptionalPrimitive, lsp_types.HoverOptions]:\n        if isinstance(object_, (bool, int, str, float)) or object_ is None:\n            return object_")], ["C01", "C03", "C14", "C15"], "silent"),
     ("R04", "validators use a shared helper", [(V, "def uinteger_validator(", "def _in_range(value: Any, lo: int, hi: int) -> bool:\n    return isinstance(value, int) and lo <= value <= hi\n\n\ndef uinteger_validator(")], ["C12", "C04", "C20"], "silent"),
     ("R05", "lock taken unconditionally (no double check outside)", [(H, "    if not _resolved_forward_references:\n        with _resolve_forward_references_lock:", "    if True:\n        with _resolve_forward_references_lock:")], ["C19", "C01"], "silent"),
+    ("R07", "one union hook registered through a predicate instead of by type", [(H, "        (\n            Union[lsp_types.Command, lsp_types.CodeAction],\n            _code_action_hook,\n        ),\n", ""), (H, "    for type_, hook in structure_hooks:\n        converter.register_structure_hook(type_, hook)\n    return converter", "    for type_, hook in structure_hooks:\n        converter.register_structure_hook(type_, hook)\n    _ca = Union[lsp_types.Command, lsp_types.CodeAction]\n    converter.register_structure_hook_func(lambda t: t == _ca, _code_action_hook)\n    return converter")], ["C01", "C03", "C14", "C19"], "silent"),
+    ("R08", "open-enum hook returns the member for declared values", [(H, "    def _code_action_kind_hook(\n        object_: Any, _: type\n    ) -> Union[OptionalPrimitive, lsp_types.CodeActionKind]:\n        if object_ is None:\n            return None\n        if isinstance(object_, (bool, int, str, float)):\n            return object_", "    def _code_action_kind_hook(\n        object_: Any, _: type\n    ) -> Union[OptionalPrimitive, lsp_types.CodeActionKind]:\n        if object_ is None:\n            return None\n        if isinstance(object_, (bool, int, str, float)):\n            try:\n                return lsp_types.CodeActionKind(object_)\n            except ValueError:\n                return object_")], ["C01", "C02", "C03", "C13", "C15"], "silent"),
+    ("R11", "validator message reworded (still names Class.attr)", [(V, 'f"{instance.__class__.__qualname__}.{name} should be in range [{UINTEGER_MIN_VALUE}:{UINTEGER_MAX_VALUE}], but was {value}."', 'f"{value!r} is outside [{UINTEGER_MIN_VALUE}, {UINTEGER_MAX_VALUE}] for {instance.__class__.__qualname__}.{name}"')], ["C12", "C04", "C11"], "silent"),
+    ("R13", "dotnet: JsonProperty attribute emitted after DataMember", [("generator/plugins/dotnet/dotnet_classes.py", "        + (\n            [\"[JsonProperty(NullValueHandling = NullValueHandling.Ignore)]\"]\n            if optional and not special_optional\n            else []\n        )\n        + [\n            f'[DataMember(Name = \"{prop_def.name}\")]',\n        ]", "        + [\n            f'[DataMember(Name = \"{prop_def.name}\")]',\n        ]\n        + (\n            [\"[JsonProperty(NullValueHandling = NullValueHandling.Ignore)]\"]\n            if optional and not special_optional\n            else []\n        )")], ["C08", "C06"], "silent"),
+    ("R14", "testdata: one more (correctly labelled) id variant", [("generator/plugins/testdata/testdata_generator.py", '    for id_value in [1, LSP_MAX_INT, LSP_MIN_INT, "string-id-1"]:\n        yield True, {"jsonrpc": "2.0", "id": id_value, "method": method}', '    for id_value in [1, LSP_MAX_INT, LSP_MIN_INT, "string-id-1", -1, ""]:\n        yield True, {"jsonrpc": "2.0", "id": id_value, "method": method}')], ["C17", "C06"], "silent"),
+    ("R15", "python plugin annotates string literals as Literal[...] (types.py regenerated)", [(PU, "            # TODO: Use this with python >= 3.8\n            # return f\"Literal['{type_def.value}']\"\n            return \"str\"", "            return f\"Literal['{type_def.value}']\"")], ["C04", "C05", "C01", "C02", "C10", "C11"], "silent", "regen-python"),
     ("R06", "model merge written with +=", [("generator/model.py", "            spec.structures.extend(addition.structures)", "            spec.structures += addition.structures")], ["C18", "C05"], "silent"),
 ]
 
@@ -74,7 +80,8 @@ def run(cmd, **kw):
 
 
 def one(m, args):
-    mid, desc, edits, expect, kind = m
+    mid, desc, edits, expect, kind = m[:5]
+    post = m[5] if len(m) > 5 else None
     if kind == "skip":
         return mid, "skipped", ""
     wt = tempfile.mkdtemp(prefix="vf-mut-%s-" % mid, dir="/tmp")
@@ -91,6 +98,14 @@ def one(m, args):
             s = s.replace(old, new, 1)
             open(p, "w", encoding="utf-8").write(s)
         detail = []
+        if post == "regen-python":
+            out = tempfile.mkdtemp(prefix="vf-mut-gen-", dir="/tmp")
+            g = run(["/venv/bin/python", "-m", "generator", "--plugin", "python", "--output-dir", out + "/o", "--test-dir", out + "/t"], cwd=wt, env=dict(os.environ, PYTHONPATH=wt))
+            if g.returncode != 0:
+                shutil.rmtree(out, ignore_errors=True)
+                return mid, "ERROR regeneration failed", g.stderr[-300:]
+            shutil.copy(out + "/o/lsprotocol/types.py", os.path.join(wt, T))
+            shutil.rmtree(out, ignore_errors=True)
         if args.tests:
             t = run(["/venv/bin/python", "-m", "pytest", "-q", "-p", "no:cacheprovider", "-x", "tests"], cwd=wt)
             detail.append("tests=%s" % ("pass" if t.returncode == 0 else "FAIL"))
@@ -125,7 +140,7 @@ def main():
     bad = 0
     with ThreadPoolExecutor(a.jobs) as ex:
         for mid, verdict, detail in ex.map(lambda m: one(m, a), ms):
-            desc = next(m[1] for m in MUTANTS if m[0] == mid)
+            desc = next(mm_[1] for mm_ in MUTANTS if mm_[0] == mid)
             print("%-4s %-11s %s\n       %s" % (mid, verdict, desc, detail), flush=True)
             if verdict in ("MISSED", "FALSE-ALARM") or verdict.startswith("ERROR"):
                 bad += 1
